@@ -33,7 +33,7 @@ Make(k) == /\ N < MaxObj /\ k \in Kinds /\ k # "Conformer"
 
 (* cells that the deviation makes a copy share with its source *)
 SharedBy(r) == IF "SharedAttribOnEvolve" \in Deviations /\ r \in {"construct", "concat", "upcast", "ensemble_from"}
-                 THEN {"atomattr", "atomnest", "bondattr", "molnest"} ELSE {}
+                 THEN {"atomattr", "atomattr_e", "atomnest", "bondattr", "bondattr_e", "molnest"} ELSE {}
 
 Copy(rt, i) ==
   /\ N < MaxObj /\ i \in 1..N /\ rt \in Routes /\ rt.from = objs[i].kind
